@@ -398,6 +398,32 @@ pub fn run(m128: bool, seed: u64, steps: usize, judge: Judge, prefix: &str, ctx:
                 ctx.state(hs.get());
             }
         }
+        // the host loads an SZX snapshot of the very state the machine is in, but positioned at another
+        // point of the frame (earlier or later): from there on time keeping continues from that position
+        if step % 300 == 100 && (seed >> 51) & 1 == 1 && !r.halted {
+            let now = e.verif_frame_clocks() as u64;
+            let tprime = if rng.bool() { rng.below(now.max(1)) } else { rng.below(frame) };
+            let mut sn = crate::snapfmt::SnapState::new(m128);
+            for b in 0..8 {
+                sn.banks[b].copy_from_slice(&m.banks[b]);
+            }
+            sn.port_7ffd = if m128 { m.last_7ffd } else { 0 };
+            sn.cpu = CpuState::from_ref(&r);
+            sn.ei_last = sn.cpu.no_sample;
+            sn.border = e.border_color() as u8;
+            sn.frame_t = tprime as u32;
+            let opt = crate::snapfmt::SzxOptions { compress: vec![step % 2 == 0; 8], ..Default::default() };
+            if e.load_snapshot(rustzx_core::host::Snapshot::Szx(crate::host::SimAsset::plain(crate::snapfmt::write_szx(&sn, &opt)))).is_ok() && e.verif_frame_clocks() as u64 == tprime {
+                ctx.probe(if tprime < now { "lockstep_szx_reload_clock_backwards" } else { "lockstep_szx_reload_clock_forwards" });
+                sync_model_from_machine(&mut e, &mut m, m128);
+                r = cpu_state(&mut e).to_ref();
+                t_ref = frames_impl * frame + tprime;
+                since_sync = 0;
+            } else {
+                // (what a load must restore is C14's matter) carry on from whatever the machine is in
+                resync(&mut e, &mut m, &mut r, &mut t_ref, frames_impl);
+            }
+        }
         // the host takes a snapshot now and then: it costs no emulated time (and changes nothing)
         if step % 500 == 250 && (seed >> 50) & 1 == 1 {
             ctx.probe("lockstep_snapshot_saved");
